@@ -762,23 +762,42 @@ def c01n(ctx):
                 ok = True
         if not ok:
             ctx.fail(o, c_, "no `repair_transitive_firewall_callees = true` under `the fingerprints differ`")
-    # ---- a chunk that was cancelled or asked for recomputation can never count as clean
-    o = ctx.ob("C01.n", "unordered-group/cancelled-chunk-means-recompute", "K2",
-               "in the join loop of an unordered group, a Recompute or Cancelled chunk result always raises the recompute flag before the next result is taken")
+
+
+def c01n_join(ctx):
+    """Join loop of an unordered callee group: the only outcome of a chunk that may leave the recompute flag down is
+    `Ok(Cleaned {..})`.  Recompute, Cancelled and a JoinError (the chunk panicked — a callee's executor panicked during the
+    repair — or was aborted) all mean that some callee of the group was not verified: taking any of them for clean stamps
+    the caller as verified with its old value (and swallows the panic)."""
+    prog = ctx.prog
+    o = ctx.ob("C01.n", "unordered-group/only-cleaned-chunks-count-as-clean", "K2",
+               "in the join loop of an unordered group every chunk outcome other than Ok(Cleaned) raises the recompute flag before the next result is taken")
     b = ctx.touch(prog.coroutine_of("Snapshot::recompute_decision_based_on_forward_edges"))
     jn = b.calls_to(r"JoinSet::<T>::join_next$")
-    edges = [(sb, tb, _variant_name(prog, c.adt, v)) for sb, tb, v, c in df.variant_edges(b, "::ChunkedCalleeCheckDecision") if v != "otherwise"]
+    dec = [(sb, tb, _variant_name(prog, c.adt, v)) for sb, tb, v, c in df.variant_edges(b, "::ChunkedCalleeCheckDecision") if v != "otherwise"]
     trues = b.assigns(lambda st: st["rv"]["k"] == "use" and (st["rv"]["op"].get("c") or {}).get("s") == "true" and not st["lhs"][1])
-    o.sites = len(edges)
-    if len(jn) != 1 or not {"Recompute", "Cancelled", "Cleaned"} <= {n_ for _, _, n_ in edges}:
-        ctx.fail(o, Site(b, 0, 0), "anchor missing: join loop over ChunkedCalleeCheckDecision results (join_next=%d, variants tested=%s)" % (len(jn), sorted({n_ for _, _, n_ in edges})))
-    else:
-        for sb, tb, nm in edges:
-            if nm in ("Recompute", "Cancelled"):
-                bad = b.must_pass([tb], [a.bb for a in trues], to_bbs=[jn[0].bb] + b.returns())
-                if bad:
-                    ctx.fail(o, Site(b, tb, 0), "a chunk that ended with %s can be taken for clean: the loop continues (or returns) without raising the recompute flag — "
-                             "the callees that chunk did not check are never re-verified" % nm)
+    o.sites = len(dec)
+    if len(jn) != 1 or not {"Recompute", "Cancelled", "Cleaned"} <= {n_ for _, _, n_ in dec}:
+        ctx.fail(o, Site(b, 0, 0), "anchor missing: join loop over ChunkedCalleeCheckDecision results (join_next=%d, variants tested=%s)" % (len(jn), sorted({n_ for _, _, n_ in dec})))
+        return
+    # the `Some(result)` edge of the join_next result
+    some = [(sb, tb) for sb, tb, v, c in df.variant_edges(b, "Option") if v == 1 and any(x.kind == "call" and x.site == jn[0] for x in df.origins_of_place(b, c.place))]
+    if not some:
+        ctx.fail(o, jn[0], "anchor missing: the `Some(result)` test of join_next")
+        return
+    cleaned = [(sb, tb) for sb, tb, n_ in dec if n_ == "Cleaned"]
+    r = b.reachable([tb for _, tb in some], removed_nodes=[a.bb for a in trues], removed_edges=cleaned)
+    if jn[0].bb in r or any(t in r for t in b.returns()):
+        # name the offending outcome
+        which = []
+        for sb, tb, n_ in dec:
+            if n_ != "Cleaned" and (jn[0].bb in b.reachable([tb], removed_nodes=[a.bb for a in trues])):
+                which.append(n_)
+        for sb, tb, v, c in df.variant_edges(b, "Result"):
+            if v == 1 and jn[0].bb in b.reachable([tb], removed_nodes=[a.bb for a in trues], removed_edges=cleaned):
+                which.append("Err(JoinError)")
+        ctx.fail(o, jn[0], "a chunk that ended with %s can be taken for clean: the loop goes on without raising the recompute flag — callees that chunk did not verify "
+                 "(or whose executor panicked) are never re-verified and the caller is stamped as up to date" % (" / ".join(sorted(set(which))) or "something other than Ok(Cleaned)"))
 
 
 def c01o(ctx):
@@ -850,6 +869,7 @@ def run(ctx):
     ctx.run_clause("C01.l", c01l)
     ctx.run_clause("C01.m", c01m)
     ctx.run_clause("C01.n", c01n)
+    ctx.run_clause("C01.n", c01n_join)
     ctx.run_clause("C01.o", c01o)
     ctx.run_clause("C01.p", c01p)
     ctx.run_clause("C01.j", c01j)
